@@ -284,6 +284,30 @@ pub fn run_c10(ctx: &Ctx) -> (&'static str, Map<String, Value>) {
             }
         }
     }
+    // every aux mode at every state of whole lifetimes (Engine A): a fresh zero buffer, the valid buffer,
+    // through both entry points -- the outcome must equal the aux-less call in every state
+    let life_devs = vec![
+        crate::props_life::sign_act(0, Entry::Bytes, Cb::Accept, crate::lifecycle::AuxMode::Fresh),
+        crate::props_life::sign_act(0, Entry::Bytes, Cb::Accept, crate::lifecycle::AuxMode::Valid),
+        crate::props_life::sign_act(1, Entry::Key, Cb::Accept, crate::lifecycle::AuxMode::Fresh),
+        crate::props_life::sign_act(1, Entry::Key, Cb::Accept, crate::lifecycle::AuxMode::Valid),
+        crate::props_life::sign_act(0, Entry::Bytes, Cb::Reject, crate::lifecycle::AuxMode::Fresh),
+    ];
+    let mut life = vec![
+        crate::props_life::cfg(ctx, Hid::S32, vec![p(4, 5)], 0, None, 1, life_devs.clone()),
+        crate::props_life::cfg(ctx, Hid::S16, vec![p(2, 5), p(4, 2)], 0, None, 1, life_devs.clone()),
+        crate::props_life::cfg(ctx, Hid::K24, vec![p(4, 2), p(4, 2)], 0, None, 1, life_devs.clone()),
+        crate::props_life::cfg(ctx, Hid::S24, vec![p(4, 2), p(8, 2), p(4, 2)], 0, None, 1, life_devs.clone()),
+    ];
+    if th {
+        for h in ALL_HASHES {
+            life.push(crate::props_life::cfg(ctx, h, vec![p(if h.shake() { 1 } else { 4 }, 5), p(4, 2)], 0, None, 1, life_devs.clone()));
+        }
+        for (s0, ms) in [(0u64, Some(3u64)), (511, Some(3)), (700, Some(2)), (1021, None)] {
+            life.push(crate::props_life::cfg(ctx, Hid::S32, vec![p(8, 10)], s0, ms, 1, life_devs.clone()));
+        }
+    }
+    let (life_agg, life_labels) = crate::props_life::run_lattice(ctx, life);
     let total = all.len() as u64;
     all.par_iter().for_each(|c| {
         let v = aux_eval(c);
@@ -306,6 +330,9 @@ pub fn run_c10(ctx: &Ctx) -> (&'static str, Map<String, Value>) {
     m.insert("traces_validated_against_impl".into(), json!(total));
     m.insert("configurations".into(), json!(cfgs.iter().map(|(h, p, c)| format!("{} {:?} counters {:?}", h.name(), p, c)).collect::<Vec<_>>()));
     m.insert("outcome_classes".into(), json!(*classes.lock().unwrap()));
+    m.insert("lifecycle_configurations".into(), json!(life_labels));
+    m.insert("lifecycle_states".into(), json!(life_agg.states.load(std::sync::atomic::Ordering::Relaxed)));
+    m.insert("lifecycle_transitions".into(), json!(life_agg.transitions.load(std::sync::atomic::Ordering::Relaxed)));
     m.insert("rule".into(), json!("per configuration: the valid buffer (model-built, compared with what keygen writes) under every single-bit flip, truncation to every length, padding 1..n+4, marker zeroed, foreign buffers, garbage patterns, the half-initialised buffer left by sign on a fresh buffer, planted wrong nodes; fresh zero buffers at every level-boundary length; each faulty buffer is driven through keygen and through sign followed by a second sign with the buffer as left behind; every run is compared with the aux-less run"));
     m.insert("exhaustive".into(), json!(true));
     ("fault_enumeration", m)
